@@ -114,8 +114,10 @@ func (e *Encoder) Write(_ context.Context, f frame.Frame) error {
 // DecodingReader provides a Reader on top of a gob stream
 // encoded with batches of rows stored in column-major order.
 type decodingReader struct {
-	dec     *gobDecoder
-	crc     hash.Hash32
+	dec *gobDecoder
+	crc hash.Hash32
+	// nread counts the bytes consumed from the underlying stream.
+	nread   *byteCounter
 	scratch frame.Frame
 	buf     frame.Frame
 	err     error
@@ -137,8 +139,9 @@ func NewDecodingReader(r io.Reader) Reader {
 	if _, ok := r.(io.ByteReader); !ok {
 		r = bufio.NewReader(r)
 	}
-	r = io.TeeReader(r, crc)
-	return &decodingReader{dec: newGobDecoder(readerByteReader{Reader: r}), crc: crc}
+	nread := new(byteCounter)
+	r = io.TeeReader(r, io.MultiWriter(crc, nread))
+	return &decodingReader{dec: newGobDecoder(readerByteReader{Reader: r}), crc: crc, nread: nread}
 }
 
 func (d *decodingReader) Read(ctx context.Context, f frame.Frame) (n int, err error) {
@@ -147,9 +150,17 @@ func (d *decodingReader) Read(ctx context.Context, f frame.Frame) (n int, err er
 	}
 	for d.buf.Len() == 0 {
 		d.crc.Reset()
+		start := *d.nread
 		if d.err = d.dec.Decode(&n); d.err != nil {
 			if d.err == io.EOF {
-				d.err = EOF
+				if *d.nread == start {
+					d.err = EOF
+				} else {
+					// Gob reports io.EOF also when the stream ends right
+					// after a (damaged) message header. The stream ends
+					// cleanly only if it ends exactly at a batch boundary.
+					d.err = errors.E(errors.Integrity, "stream ended inside a batch header")
+				}
 			}
 			return 0, d.err
 		}
@@ -241,6 +252,14 @@ func (d *decodingReader) decode(f frame.Frame) error {
 		return errors.E(errors.Integrity, fmt.Errorf("computed checksum %x but expected checksum %x", sum, decoded))
 	}
 	return nil
+}
+
+// byteCounter is an io.Writer that counts the bytes written to it.
+type byteCounter int64
+
+func (c *byteCounter) Write(p []byte) (int, error) {
+	*c += byteCounter(len(p))
+	return len(p), nil
 }
 
 // readerByteReader is used to provide an (invalid) implementation of
